@@ -1,4 +1,6 @@
 import EaselModel.Dist.Num
+import EaselModel.Dist.Special
+import EaselModel.Generated.ErfcCoef
 /-! `Float` instance of `Num`: every operation is the libm function the C code calls (Lean's `Float.exp`, `Float.log`, …
     are `@[extern]` bindings to `exp`, `log`, …; `erfc` is bound the same way here).  Core Lean only.
     The special functions of `esl_stats.c` are hand models (`Dist/Special.lean`), tied bit-for-bit by the
@@ -10,6 +12,50 @@ namespace EaselModel.Dist
 
 def floatInf : Float := 1.0 / 0.0
 
+/-- Hand model (kind H) of `esl_stats_erfc` (the Sun/FreeBSD `erfc`, which `esl_normal.c` uses when `HAVE_ERFC` is not
+    defined — the case in this build): branch structure mirrored on the high word of `x`; coefficients from
+    `Generated/ErfcCoef.lean`.  Tied bit-for-bit by the correspondence run (`f fn=esl_stats_erfc`). -/
+def erfcSun (x : Float) : Float :=
+  open ErfcCoef in
+  let bits := x.toBits
+  let hxu : UInt64 := bits >>> 32                 -- high word, as unsigned
+  let neg : Bool := hxu >= 0x80000000             -- hx < 0
+  let ix : UInt64 := hxu &&& 0x7fffffff
+  if ix >= 0x7ff00000 then (if neg then 2.0 else 0.0) + 1.0 / x
+  else if ix < 0x3feb0000 then
+    if ix < 0x3c700000 then 1.0 - x
+    else
+      let z := x * x
+      let r := pp0 + z * (pp1 + z * (pp2 + z * (pp3 + z * pp4)))
+      let s := 1.0 + z * (qq1 + z * (qq2 + z * (qq3 + z * (qq4 + z * qq5))))
+      let y := r / s
+      if neg || hxu < 0x3fd00000 then 1.0 - (x + x * y)       -- signed `hx < 0x3fd00000`
+      else
+        let r := x * y
+        let r := r + (x - 0.5)
+        0.5 - r
+  else if ix < 0x3ff40000 then
+    let s := x.abs - 1.0
+    let P := pa0 + s * (pa1 + s * (pa2 + s * (pa3 + s * (pa4 + s * (pa5 + s * pa6)))))
+    let Q := 1.0 + s * (qa1 + s * (qa2 + s * (qa3 + s * (qa4 + s * (qa5 + s * qa6)))))
+    if !neg then (1.0 - erx) - P / Q else 1.0 + (erx + P / Q)
+  else if ix < 0x403c0000 then
+    let ax := x.abs
+    let s := 1.0 / (ax * ax)
+    if ix >= 0x4006DB6D && neg && ix >= 0x40180000 then 2.0
+    else
+      let RS : Float × Float :=
+        if ix < 0x4006DB6D then
+          (ra0 + s * (ra1 + s * (ra2 + s * (ra3 + s * (ra4 + s * (ra5 + s * (ra6 + s * ra7)))))),
+           1.0 + s * (sa1 + s * (sa2 + s * (sa3 + s * (sa4 + s * (sa5 + s * (sa6 + s * (sa7 + s * sa8))))))))
+        else
+          (rb0 + s * (rb1 + s * (rb2 + s * (rb3 + s * (rb4 + s * (rb5 + s * rb6))))),
+           1.0 + s * (sb1 + s * (sb2 + s * (sb3 + s * (sb4 + s * (sb5 + s * (sb6 + s * sb7)))))))
+      let z := Float.ofBits (ax.toBits &&& 0xffffffff00000000)      -- ESL_SET_LOWWORD(z, 0)
+      let r := Float.exp ((-z) * z - 0.5625) * Float.exp ((z - ax) * (z + ax) + RS.1 / RS.2)
+      if !neg && hxu > 0 then r / ax else 2.0 - r / ax
+  else if !neg then 0.0 else 2.0
+
 instance : Num Float where
   exp := Float.exp
   log := Float.log
@@ -17,11 +63,13 @@ instance : Num Float where
   sqrt := Float.sqrt
   floor := Float.floor
   fabs := Float.abs
-  erfc := erfcFloat
+  erfc := erfcSun
   eqb := fun a b => a == b
   inf := floatInf
-  logGamma := fun _ => 0.0 / 0.0
-  incGammaP := fun _ _ => 0.0 / 0.0
-  incGammaQ := fun _ _ => 0.0 / 0.0
+  logGamma := fun x => if x ≤ 0.0 then 0.0 / 0.0 else Special.logGamma Float.log x
+  incGammaP := fun a x => match Special.incGamma Float.exp Float.log Float.abs (fun a b => a == b) a x with
+    | some pq => pq.1 | none => 0.0 / 0.0
+  incGammaQ := fun a x => match Special.incGamma Float.exp Float.log Float.abs (fun a b => a == b) a x with
+    | some pq => pq.2 | none => 0.0 / 0.0
 
 end EaselModel.Dist
